@@ -453,6 +453,7 @@ impl BTree {
     }
 
     pub fn create(pager: &mut Pager) -> Result<Self> {
+        let _vo = vowner!("btree");
         let root = pager.allocate_page()?;
         let mut buf = [0u8; PAGE_SIZE];
         Page::new(&mut buf).init_leaf();
@@ -461,6 +462,7 @@ impl BTree {
     }
 
     pub fn insert(&mut self, pager: &mut Pager, key: &[u8], payload: u64) -> Result<()> {
+        let _vo = vowner!("btree");
         let mut path: Vec<PathEntry> = Vec::new();
         let mut cur = self.root;
 
@@ -527,6 +529,7 @@ impl BTree {
     /// This implementation only modifies the leaf page containing the key.
     /// It does NOT yet implement page merging or rebalancing (MVP).
     pub fn delete(&mut self, pager: &mut Pager, key: &[u8], payload: u64) -> Result<bool> {
+        let _vo = vowner!("btree");
         let mut cur = self.root;
         loop {
             let mut buf = pager.read_page(cur)?;
@@ -574,6 +577,7 @@ impl BTree {
         key: &[u8],
         payload: u64,
     ) -> Result<bool> {
+        let _vo = vowner!("btree");
         if self.root.as_u64() != 0 {
             eprintln!(
                 "WARN: B-Tree delete_exact_rebuild triggered. This causes a full rewrite of the index tree (ID: {:?}).",
